@@ -6,7 +6,7 @@
    Theorems quantify over every codec that satisfies the stated law, every configuration, framing
    (Content-Length / chunked / until-EOF), segmentation, close point and consumer schedule (`evs`), and every
    recursion fuel.  `init c t len enc` is the state right after the message head was parsed. *)
-From AV Require Import Lib.Base Generated.DecodeGen Model.Decode Proofs.DecodeBasic Proofs.DecodeBound Proofs.DecodeInst.
+From AV Require Import Lib.Base Generated.DecodeGen Model.Decode Proofs.DecodeBasic Proofs.DecodeBound Proofs.DecodeProgress Proofs.DecodeHandler Proofs.DecodeInst.
 
 (* ---- bounded memory ------------------------------------------------------------------------------
    Whatever the compression ratio: if one decompress_sync(data, max_length = m) call returns at most capf m
@@ -47,6 +47,26 @@ Example C09_bounded_example :
 Proof. exact bomb_witness. Qed.
 Print Assumptions C09_bounded_example.
 
+(* the cap law for the multi-member glue (ZLibDecompressor.decompress_sync + _decompress_members: budget =
+   max_length - produced, walk stops when the budget is spent) follows from the cap law of one decompressobj *)
+Theorem C09_handler_cap :
+  forall (M : Type) (mnew : N -> M) (mdec : M -> bytes -> N -> option (M * bytes)) (mtail munused : M -> bytes) (meof : M -> bool),
+    (forall d x m d' out, mdec d x m = Some (d', out) -> m <> 0 -> lenN out <= m) ->
+    forall z data maxlen z' out,
+      maxlen <> 0 -> zh_step M mnew mdec mtail munused meof z data maxlen = HOk M z' out -> lenN out <= maxlen.
+Proof. exact zh_step_cap. Qed.
+Print Assumptions C09_handler_cap.
+
+(* two concatenated toy-gzip members (200 x 'A', 200 x 'B') through decompress_sync with max_length 7:
+   exactly 7 bytes come out and data_available stays true *)
+Example C09_handler_cap_example :
+  match toy_hstep (toy_hnew 31) [31; 200; 65; 0; (200 * 65) mod 256; 31; 200; 66; 0; (200 * 66) mod 256] 7 with
+  | Some (Some (z, out)) => lenN out = 7 /\ toy_havail z = true
+  | _ => False
+  end.
+Proof. vm_compute. split; reflexivity. Qed.
+Print Assumptions C09_handler_cap_example.
+
 (* ---- progress -------------------------------------------------------------------------------------
    Full statement (no reachable state in which the consumer waits on an empty buffer while the
    connection is open, the transport is reading and the parser holds unprocessed input) is REFUTED by the
@@ -58,6 +78,44 @@ Theorem C09_progress_refuted :
   exists evs, stalled (fst (toy_run 100 (toy_init 1 true 8190 8190 125 true PChunked 0 0) evs)).
 Proof. exists w_stale_events. exact stale_pause_witness. Qed.
 Print Assumptions C09_progress_refuted.
+
+(* What is proved in its place: for Content-Length and until-EOF framing (t <> PChunked), any codec whose
+   decompress_sync leaves data_available false after an output-less call (ZLibDecompressor: `_last_empty`),
+   read_bufsize >= 1, with or without transport flow control: whenever the buffer is empty and the
+   connection is open, the parser holds no unprocessed input and reading is not paused — the consumer is
+   waiting for the network, never for a resume that nobody will issue.  Missing for the full statement:
+   the chunked parser's stale `_paused` flag (the refutation above). *)
+Theorem C09_progress_partial :
+  forall (H : Type) (hnew : N -> H) (hstep : H -> bytes -> N -> option (option (H * bytes)))
+         (havail heof : H -> bool) (hflush : H -> option bytes),
+    (forall h x m h', hstep h x m = Some (Some (h', [])) -> havail h' = false) ->
+    forall fuel c t len enc evs (y : sys H) os,
+      1 <= c_limit c -> t <> PChunked ->
+      run H hnew hstep havail heof hflush fuel (init H hnew c t len enc) evs = (y, os) ->
+      buf (re (core y)) = [] -> connected (pr (core y)) = true ->
+      has_more (pr (core y)) = false /\ rpaused (pr (core y)) = false /\ tpaused (pr (core y)) = false.
+Proof. exact progress_nonchunked. Qed.
+Print Assumptions C09_progress_partial.
+
+Theorem C09_not_stalled_partial :
+  forall (H : Type) (hnew : N -> H) (hstep : H -> bytes -> N -> option (option (H * bytes)))
+         (havail heof : H -> bool) (hflush : H -> option bytes),
+    (forall h x m h', hstep h x m = Some (Some (h', [])) -> havail h' = false) ->
+    forall fuel c t len enc evs (y : sys H) os,
+      1 <= c_limit c -> t <> PChunked ->
+      run H hnew hstep havail heof hflush fuel (init H hnew c t len enc) evs = (y, os) -> ~ stalled y.
+Proof. exact not_stalled_nonchunked. Qed.
+Print Assumptions C09_not_stalled_partial.
+
+(* the codec law is satisfiable *)
+Theorem C09_progress_partial_instance :
+  forall fuel c t len enc evs (y : ic_sys) os,
+    1 <= c_limit c -> t <> PChunked ->
+    ic_run fuel (ic_init c t len enc) evs = (y, os) ->
+    buf (re (core y)) = [] -> connected (pr (core y)) = true ->
+    has_more (pr (core y)) = false /\ rpaused (pr (core y)) = false /\ tpaused (pr (core y)) = false.
+Proof. exact progress_nonchunked_idcap. Qed.
+Print Assumptions C09_progress_partial_instance.
 
 (* ---- client_max_size ------------------------------------------------------------------------------
    BaseRequest.read(): what it returns never exceeds client_max_size, and what it accumulated before
